@@ -147,6 +147,18 @@ def twice(f, *args):
     try:
         parts = [q for q in (r2 if isinstance(r2, tuple) else (r2,)) if isinstance(q, np.ndarray) and q.flags.writeable and q.size
                  and q.dtype.kind in "fiu"]
+        lists = [q for q in (r2 if isinstance(r2, tuple) else (r2,)) if isinstance(q, list) and q
+                 and all(isinstance(t, (int, float, np.floating, np.integer)) and not isinstance(t, bool) for t in q)]
+        if lists and not parts and msg is None:
+            same_obj = any(q is p_ for q in lists for p_ in (r1 if isinstance(r1, tuple) else (r1,)))
+            for q in lists:
+                q[0] = q[0] * 3 + 1
+                q.append(12345.0)
+            r3 = f(*args)
+            if not _same(r3, keep1):
+                msg = "%s: changing a list it returned changes what it returns next (it hands out storage it keeps using)" % name
+            if same_obj:
+                r1 = keep1
         own = [q for q in parts if not any(isinstance(a, np.ndarray) and np.shares_memory(a, q) for a in args)]
         shared_with_first = any(np.shares_memory(q, p_) for q in own
                                 for p_ in (r1 if isinstance(r1, tuple) else (r1,)) if isinstance(p_, np.ndarray))
@@ -181,3 +193,22 @@ def twice(f, *args):
     if len(old) > 4:
         del old[0]
     return r1, msg
+
+
+class switch_off(object):
+    """with switch_off(cond): ... runs the block with xfab.CHECKS.activated = False when cond is true, and restores the switch"""
+
+    def __init__(self, cond=True):
+        self.cond = cond
+
+    def __enter__(self):
+        import xfab
+        self.was = xfab.CHECKS.activated
+        if self.cond:
+            xfab.CHECKS.activated = False
+        return self.cond
+
+    def __exit__(self, *exc):
+        import xfab
+        xfab.CHECKS.activated = self.was
+        return False
